@@ -87,6 +87,21 @@ fn check(rep: &Report, acc: &mut Acc, it: &Item, rank: u64) {
                         rep.violation(&format!("C19|decap-disagrees-on-id|{}", p.kind.name()), rank, || (format!("{}: a context for id {} is open but decap answers {}", it.desc, f, out.brief()), wit()));
                     }
                 }
+                // ... and with no other: when only a reassembly of ANOTHER id (sharing the memory slot) is open, decap
+                // must not attach the packet to it
+                if t.is_empty() {
+                    let other = f.wrapping_add(2);
+                    let mut rxa = RxS::new(2, 64, &[64, 64]);
+                    rxa.mem.set_ctx(CtxS { label: L3B, pt: 0x86DD, frag_id: other, total_len: 40, pdu_len: 2, from_reuse: false, exts: vec![] }, vec![0u8; 64]);
+                    let (oa, after) = step_decap(&rxa, &DefaultCrc {}, &mgr, &input);
+                    acc.transitions += 1;
+                    acc.calls += 1;
+                    acc.compared += 1;
+                    let attached = matches!(oa, DecapOut::Fragmented { .. } | DecapOut::Completed { .. }) || after.mem.ctx_in_class(other).map(|c| (c.0.frag_id, c.0.pdu_len)) != Some((other, 2));
+                    if attached {
+                        rep.violation(&format!("C19|decap-attaches-to-other-id|{}", p.kind.name()), rank, || (format!("{}: peek says fragment id {}, only a reassembly of id {} is open, and decap answers {} / leaves {:?}", it.desc, f, other, oa.brief(), after.mem.ctx_in_class(other).map(|c| &c.0)), json!({"packet": hex(&it.bytes), "origin": it.desc, "receiver": {"slots": 2, "storage": 64, "buffers": 2, "contexts": [{"label": L3B.short(), "pt": 0x86DD, "frag_id": other, "total_len": 40, "pdu_len": 2}]}, "decap": oa.brief()})));
+                    }
+                }
             }
             Kind::Complete | Kind::First => {
                 let dlabel = match &out {
